@@ -108,6 +108,11 @@ def gen_real_graph(rnd, extreme=True, inexpressible=None):
         edges.append(EdgeLandmark([poses[0].id, lms[0].id], rnd_info(2, rnd, False), rnd_pose('R2', rnd, False), off, offset_id=0))
     g = Graph(edges, verts)
     g._g2o_params = params
+    if inexpressible == 'no_registry':
+        # a graph assembled directly from objects: SE(3) landmark edges carry offsets, but no offset parameter was ever registered
+        if not dim3 or not any(type(e) is EdgeLandmark for e in edges):
+            return gen_real_graph(rnd, extreme, inexpressible)
+        g._g2o_params = rnd.choice([None, {}])
     return g
 
 
